@@ -154,9 +154,9 @@ def _build_c(name, rs=0, n_jobs=None):
 
     nj = {} if n_jobs is None else {"n_jobs": n_jobs}
     if name == "tsf":
-        return TimeSeriesForestClassifier(n_estimators=4, random_state=rs, **nj)
+        return TimeSeriesForestClassifier(n_estimators=5, random_state=rs, **nj)
     if name == "tsfr":
-        return TimeSeriesForestRegressor(n_estimators=4, random_state=rs, **nj)
+        return TimeSeriesForestRegressor(n_estimators=5, random_state=rs, **nj)
     if name == "rise":
         return RandomIntervalSpectralForest(n_estimators=3, random_state=rs, acf_lag=6,
                                             min_interval=8, **nj)
@@ -253,8 +253,12 @@ def _seqs(menu, tier_quick=True):
             yield s
 
 
-def _apply_case(res, tag, est_fitted, menu, args_builders):
-    """menu: list of (name, fn(est, args)); args_builders: name -> fresh args factory"""
+def _apply_case(res, tag, est_fitted, menu, args_builders, other_fit=None):
+    """menu: list of (name, fn(est, args)); args_builders: name -> fresh args factory;
+    other_fit: thunk that builds ANOTHER estimator with the same parameters and fits it on other
+    data (must not influence this one: module-level / class-level shared state)"""
+    if other_fit is not None:
+        menu = list(menu) + [("other-instance.fit(other data)", lambda e, a: (other_fit(), 0)[1])]
     refs = {}
     for i, (name, fn) in enumerate(menu):
         tw = copy.deepcopy(est_fitted)
@@ -338,8 +342,10 @@ def _apply_s(case, res):
         menu.append(("inverse(transform)", lambda e, a: e.inverse_transform(a[2])))
     zt = call(lambda: copy.deepcopy(est).transform(z.copy()))
     res.outcome("apply:s:" + base)
+    zo = (z * 1.7 + 3.0).iloc[2:20]
     _apply_case(res, tag, est, menu,
-                lambda: (z.copy(), z2.copy(), zt.value.copy() if zt.ok else None, z3.copy()))
+                lambda: (z.copy(), z2.copy(), zt.value.copy() if zt.ok else None, z3.copy()),
+                other_fit=lambda: _build_s(spec).fit(zo.copy()))
 
 
 def _apply_p(case, res):
@@ -357,7 +363,8 @@ def _apply_p(case, res):
             ("transform(b)", lambda e, a: e.transform(a[1])),
             ("transform(c~b)", lambda e, a: e.transform(a[2]))]
     res.outcome("apply:p:" + cont)
-    _apply_case(res, tag, est, menu, lambda: (mk(Pa), mk(Pb), mk(Pc)))
+    _apply_case(res, tag, est, menu, lambda: (mk(Pa), mk(Pb), mk(Pc)),
+                other_fit=lambda: _build_p(name).fit(mk(Pb * 1.3 + 0.2), np.array([0, 1] * 3)))
 
 
 def _apply_f(case, res):
@@ -387,7 +394,9 @@ def _apply_f(case, res):
     if hasattr(est, "transform") and spec[0] == "ttf":
         menu.append(("transform(y)", lambda e, a: e.transform(a[0])))
     res.outcome("apply:f")
-    _apply_case(res, tag, est, menu, lambda: (y.copy(),))
+    yo = (_series(17, start=4) * 0.6 + 11.0)
+    _apply_case(res, tag, est, menu, lambda: (y.copy(),),
+                other_fit=lambda: fmenu.build(spec).fit(yo.copy(), fh=[1, 2, 3] if req else None))
 
 
 def _cdata(name, cont, small=False):
@@ -418,7 +427,9 @@ def _apply_c(case, res):
     else:
         menu.append(("predict(c~b)", lambda e, a: e.predict(a[2])))
     res.outcome("apply:c:" + cont)
-    _apply_case(res, tag, est, menu, lambda: (mk(Pa), mk(Pb), mk(Pc)))
+    Po = _panel(Pa.shape[0], Pa.shape[1], shift=3.1) * 1.4
+    _apply_case(res, tag, est, menu, lambda: (mk(Pa), mk(Pb), mk(Pc)),
+                other_fit=lambda: _build_c(name).fit(mk(Po), yv[::-1].copy()))
 
 
 def _twin(case, res):
@@ -473,7 +484,7 @@ def _twin(case, res):
         return
     has_nj = name in ("tsf", "tsfr", "rise", "stsf", "iboss", "boss", "cboss")
     if has_nj:
-        for nj in (1, 2, 4):
+        for nj in (1, 2, 3, 4):
             o = call(results, nj)
             res.transitions += 1
             if not o.ok or not _eq(o.value, ref.value):
@@ -606,17 +617,20 @@ def _interleave(case, res):
         return
     ti, tj = tasks.value[i], tasks.value[j]
 
-    def run_alone(t):
-        t = copy.deepcopy(t)
+    def run_alone(which):
+        # copy the pair TOGETHER so that objects shared between the two tasks (a common scratch
+        # buffer, a common estimator) stay shared, exactly as in the real Parallel call
+        pair = copy.deepcopy((ti, tj))
+        t = pair[which]
         return t[0](*t[1], **t[2])
 
-    ref = [call(run_alone, ti), call(run_alone, tj)]
+    ref = [call(run_alone, 0), call(run_alone, 1)]
     if not ref[0].ok or not ref[1].ok:
         res.outcome("interleave:task-raises")
         return
 
     def mk():
-        a, b = copy.deepcopy(ti), copy.deepcopy(tj)
+        a, b = copy.deepcopy((ti, tj))
         return [lambda: a[0](*a[1], **a[2]), lambda: b[0](*b[1], **b[2])]
 
     il = sched.Interleaver()
